@@ -209,6 +209,7 @@ func cmdCheck(record bool, args []string) int {
 			translErrs = append(translErrs, res.Err.Error())
 			continue
 		}
+		translErrs = append(translErrs, res.Warn...)
 		funcsUnder = append(funcsUnder, shortFuncName(f))
 		for _, o := range res.Obls {
 			file := filepath.Join(workDir, sanitize(o.Name)+".smt2")
